@@ -426,3 +426,7 @@ func C12_PauseNoticeKills() { focus = "C12"; scenePauseNoticeKills() }
 
 // C18: the scan over all earnings records at zero-height preparation decodes each record's provider
 func C18_ZeroHeight() { focus = "C18"; sceneGenesis(gnQuick) }
+
+// C20: prices written as decimal numbers of any length (the pricing schema admits them)
+func C20_BindDecimalPrice()   { focus = "C20"; sceneBindingMsg(opBind, BindOpts{Huge: true, MsgDec: true}) }
+func C20_UpdateDecimalPrice() { focus = "C20"; sceneBindingMsg(opUpdBinding, BindOpts{Huge: true, MsgDec: true}) }
